@@ -8,8 +8,14 @@ from ..core import Machinery
 
 CANDS = ["pycalver.toml", "bumpver.toml", ".bumpver.toml", "pyproject.toml", "setup.cfg"]
 EXTRA = ["README.md", "README.rst", "setup.py"]
-UNRELATED = {"setup.cfg": "[metadata]\nname = demo\n\n[options]\nzip_safe = False\n", "pyproject.toml": "[build-system]\nrequires = [\"setuptools\"]\n\n[tool.black]\nline-length = 100\n",
-             "bumpver.toml": "[other]\nkey = 1\n", ".bumpver.toml": "# nothing yet\n[misc]\nx = \"y\"\n", "pycalver.toml": "[something]\nelse = true\n"}
+# unrelated prior content: several variants per file - tables of other tools ([tool.black], bump2version's [bumpversion] with a current_version of its own),
+# a key called current_version elsewhere; none of them is a bumpver section
+UNRELATED = {"setup.cfg": ["[metadata]\nname = demo\n\n[options]\nzip_safe = False\n", "[bumpversion]\ncurrent_version = 1.4.2\ncommit = True\n\n[bumpversion:file:setup.py]\n",
+                           "[tool:pytest]\naddopts = -q\n"],
+             "pyproject.toml": ["[build-system]\nrequires = [\"setuptools\"]\n\n[tool.black]\nline-length = 100\n", "[tool.bumpversion]\ncurrent_version = \"1.4.2\"\n", "[project]\nname = \"demo\"\nversion = \"0.1\"\n"],
+             "bumpver.toml": ["[other]\nkey = 1\n", "[tool.black]\nline-length = 100\n", "[other]\ncurrent_version = \"1\"\n"],
+             ".bumpver.toml": ["# nothing yet\n[misc]\nx = \"y\"\n", "[tool.isort]\nprofile = \"black\"\n\n[tool.black]\nline-length = 100\n"],
+             "pycalver.toml": ["[something]\nelse = true\n", "[tool.poetry]\nname = \"demo\"\n", "[bumpversion]\ncurrent_version = \"1.4.2\"\n"]}
 SECTION = {"setup.cfg": "[metadata]\nname = demo\n\n[bumpver]\ncurrent_version = 2020.1001\nversion_pattern = YYYY.BUILD[-TAG]\n",
            "pyproject.toml": "[tool.bumpver]\ncurrent_version = \"2020.1001\"\nversion_pattern = \"YYYY.BUILD[-TAG]\"\n",
            "bumpver.toml": "[bumpver]\ncurrent_version = \"2020.1001\"\nversion_pattern = \"YYYY.BUILD[-TAG]\"\n",
@@ -20,7 +26,7 @@ SECTION = {"setup.cfg": "[metadata]\nname = demo\n\n[bumpver]\ncurrent_version =
 def content(rng, f, cls):
     if cls == "empty":
         return b""
-    text = UNRELATED[f] if cls == "unrelated" else SECTION[f]
+    text = rng.choice(UNRELATED[f]) if cls == "unrelated" else SECTION[f]
     style = rng.choice(["lf", "lf", "crlf", "nonl", "crlf-nonl", "comment"])
     if "nonl" in style:
         text = text.rstrip("\n")
